@@ -25,7 +25,6 @@ use std::collections::{BTreeSet, HashMap};
 use std::rc::Rc;
 
 pub const PAGE_SIZE: usize = 16384;
-const HDR: usize = 16;
 const LEAF_SLOTS: usize = 24;
 const LEAF_SLOT: usize = 8;
 const INT_SLOTS: usize = 16;
